@@ -443,6 +443,11 @@ func c17Attribute(cfg *c17Cfg, rows []*c17Row, results []map[string]interface{})
 }
 
 func (c17) Exec(c Case) [][][]string {
+	for _, l := range c.Cfg {
+		if len(l) == 2 && l[0] == "mode" && l[1] == "quotes" {
+			return c17ExecQuotes(c)
+		}
+	}
 	cfg, ok := c17ParseCfg(c)
 	if !ok {
 		return c17ErrObs(len(c.Ops), "bad cfg")
@@ -654,7 +659,73 @@ func c17CellTok(rng *rand.Rand, x float64) string {
 	return c17Ftok(x)
 }
 
+// c17GenQuotes: TRIGGER WHEN over a string-valued aggregate compared with a quoted literal that contains words and signs the
+// predicate lowering rewrites outside literals (and / or / =), in single quotes, in double quotes, parenthesised and
+// next to a second conjunct: all four spellings must fire on exactly the rows whose value equals the literal.
+func c17GenQuotes(rng *rand.Rand) Case {
+	var c Case
+	c.Cfg = [][]string{{"mode", "quotes"}}
+	lits := []string{"go and stop", "this or that", "a=b", "plain", "x AND y", "1 = 1 or 2", "a OR b", "="}
+	for i := 0; i < 12; i++ {
+		lit := lits[rng.Intn(len(lits))]
+		op := []string{"eq", "eq2", "ne"}[rng.Intn(3)]
+		var v string
+		switch rng.Intn(4) {
+		case 0, 1:
+			v = "s:" + hx(lit)
+		case 2:
+			v = "s:" + hx(strings.NewReplacer(" and ", " && ", " or ", " || ", "=", "==", " AND ", " && ", " OR ", " || ").Replace(lit))
+		default:
+			v = "s:" + hx(lits[rng.Intn(len(lits))])
+		}
+		c.Ops = append(c.Ops, []string{"q", hx(lit), op, v})
+	}
+	c.Stat = append(c.Stat, "mode-quotes")
+	return c
+}
+
+func c17ExecQuotes(c Case) [][][]string {
+	out := make([][][]string, len(c.Ops))
+	for i, op := range c.Ops {
+		if len(op) != 4 || op[0] != "q" {
+			out[i] = [][]string{{"bad-op"}}
+			continue
+		}
+		lit, v := unhx(op[1]), unhx(op[3][2:])
+		sym := map[string]string{"eq": "==", "eq2": "=", "ne": "!="}[op[2]]
+		forms := []string{
+			"LAST_VALUE(tag) " + sym + " '" + lit + "'",
+			"LAST_VALUE(tag) " + sym + " \"" + lit + "\"",
+			"(LAST_VALUE(tag) " + sym + " \"" + lit + "\")",
+			"LAST_VALUE(tag) " + sym + " \"" + lit + "\" AND COUNT(*) >= 1",
+		}
+		line := []string{"fires"}
+		for _, f := range forms {
+			fired := false
+			gw, err := window.NewGlobalWindow(types.WindowConfig{
+				Type:             window.TypeGlobal,
+				SelectFields:     map[string]aggregator.AggregateType{"cnt": aggregator.Count},
+				FieldAlias:       map[string]string{"cnt": "*"},
+				TriggerCondition: f,
+				Callback:         func(rs []types.Row) { fired = true },
+			})
+			if err != nil {
+				line = append(line, "err")
+				continue
+			}
+			gw.VerifProcessRow(map[string]interface{}{"tag": v}, time.Unix(0, 1000))
+			gw.Stop()
+			line = append(line, btok(fired))
+		}
+		out[i] = [][]string{line}
+	}
+	return out
+}
+
 func (c17) Gen(rng *rand.Rand, tier string, idx int) Case {
+	if idx%50 == 7 {
+		return c17GenQuotes(rng)
+	}
 	var c Case
 	mode := []string{"direct", "direct", "direct", "direct", "direct", "chan", "chan", "sql", "sql", "sql"}[rng.Intn(10)]
 	direct := mode != "sql"
